@@ -346,6 +346,27 @@ def check_C06(c):
         oc = outcome_of(ri[1])
         if not (oc[0] == "OK" and sexp_str(oc[1]) == "(n 0 11 0)") or "(n 0 10 0)" not in ri[2]:
             c.violation("implementation-vs-property", "assignment to a name bound to a function did not rebind it", {"requests": rq, "implementation": ri})
+    # a name that was never bound reads as None *whatever it is spelled like*: the names of the built-in functions and of a
+    # function registered earlier in the process are ordinary unbound names when read without a call
+    ureqs = ["REG\tfn\t%s\t0\tcalc\tleft\t%s" % (hx("regd"), sexp_str(["const", n(9)]))]
+    umeta = []
+    for nm in ["sum", "mul", "min", "max", "regd", "nobody"]:
+        for text in ("%s" % nm, "x = 1; x = %s; x" % nm, "[%s, 1]" % nm, "%s == nil" % nm, "%s += 1; %s" % (nm, nm), "%s = 4; %s" % (nm, nm)):
+            ureqs.append("CTX\tc\t()")
+            ureqs.append(exec_line("c", text))
+            ureqs.append("GETVAR\tc\t" + hx(nm))
+            umeta.append((nm, text))
+    ui, um = both(ureqs, timeout=600)
+    c.add_stream(Stream("unbound names spelled like registered functions", ureqs, ui, um))
+    for k, (nm, text) in enumerate(umeta):
+        oc = outcome_of(ui[3 * k + 2])
+        exp = {"%s" % nm: "(none)", "x = 1; x = %s; x" % nm: "(none)", "[%s, 1]" % nm: "(l (none) (n 0 1 0))", "%s == nil" % nm: "(b 1)", "%s = 4; %s" % (nm, nm): "(n 0 4 0)"}.get(text)
+        if exp is None:
+            bad = oc[0] == "OK"        # None += 1 fails exactly as None + 1 does
+        else:
+            bad = not (oc[0] == "OK" and sexp_str(oc[1]) == exp)
+        if bad:
+            c.violation("implementation-vs-property", "a name that was never bound does not read as None", {"input_text": text, "expected": exp or "error", "requests": ureqs[:1] + ureqs[3 * k + 1:3 * k + 4], "implementation": ui[3 * k + 2]})
     # fixed corpus with expectations stated by the property
     corpus = [("", "(none)"), ("x = 1", "(none)"), ("unbound", "(none)"), ("x = 1; x", "(n 0 1 0)"), ("x = 1; y = x + 1; x = y * 2; x", "(n 0 4 0)"),
               ("a = b = 3; [a, b]", "(l (none) (n 0 3 0))"), ("1; 2; 3", "(n 0 3 0)"), ("x = 1; x = 's'; x", "(s 73)")]
@@ -535,7 +556,9 @@ def check_C15(c):
                 "w = 1; {fc(): fb, gg(): pp 1}; z = 2 ii 3 qq ; u ss (z ss 4) ; w = 2"][order]
         block = pre + [ctx_line("c", binds), ctx_line("d", [("v", "v", n(1))]), exec_line("c", prog),
                        "GETVAR\tc\t" + hx("v"), "GETVAR\tc\t" + hx("w"), exec_line("c", "v + 1"), exec_line("d", "v + gg()" if fk != "global" else "v + 1"),
-                       exec_line("c", "fc() + fb" if fk not in ("ctxcall", "ctxbare") else "v")]
+                       exec_line("c", "fc() + fb" if fk not in ("ctxcall", "ctxbare") else "v"),
+                       # … and the registries are as usable as before: other global functions and operators still answer
+                       exec_line("d", "sum(1, 2) + max(3, 4) - (- 1) + 1 ++")]
         meta.append((len(reqs), len(pre), fk, kind_, prog))
         reqs += block
     impl, model = both(reqs, timeout=1200)
@@ -545,8 +568,8 @@ def check_C15(c):
         faulted = impl[base]
         oc = outcome_of(faulted)
         want = "ERR" if kind_ == "err" else "PANIC"
-        fol = impl[base + 1: base + 6]
-        ok = oc[0] == want and fol[0] == "OK (n 0 9 0)" and fol[1] == "OK (n 0 1 0)" and all("\tOK " in x for x in fol[2:5])
+        fol = impl[base + 1: base + 7]
+        ok = oc[0] == want and fol[0] == "OK (n 0 9 0)" and fol[1] == "OK (n 0 1 0)" and all("\tOK " in x for x in fol[2:5]) and "\tOK (n 0 10 0)" in fol[5]
         # nothing after the failing handler ran: the log ends with the faulty tag
         logf = faulted.split("\t")[3] if len(faulted.split("\t")) > 3 else ""
         tag = {"ctxcall": "fc", "ctxbare": "fb", "global": "gg", "prefix": "pp", "infix": "ii", "postfix": "qq", "setter": "ss"}[fk]
@@ -555,7 +578,28 @@ def check_C15(c):
             ok = False
         if not ok:
             c.violation("implementation-vs-property", "a failing/panicking %s handler was not contained (%s)" % (fk, kind_),
-                        {"requests": reqs[off: base + 6], "implementation": impl[off: base + 6], "input_text": prog})
+                        {"requests": reqs[off: base + 7], "implementation": impl[off: base + 7], "input_text": prog})
+    # a failing context function that shadows a same-named global (a registered one, or a built-in): its failure is the
+    # evaluation's failure — the shadowed global is not tried instead, nothing later runs
+    sreqs, smeta = [], []
+    for kind_ in ("err", "panic"):
+        for nm, prog in [("gg", "w = 1; x = gg(4) + 1; w = 2"), ("sum", "w = 1; x = sum(1, 2); w = 2"), ("max", "w = 1; [max(1, 2), hh()]; w = 2"),
+                         ("gg", "w = 1; x = hh() + gg() + hh(); w = 2")]:
+            blk = ["REG\tfn\t%s\t0\tcalc\tleft\t%s" % (hx("gg"), sexp_str(["log", hx("global-gg"), ["const", n(3)]])),
+                   "REG\tfn\t%s\t0\tcalc\tleft\t%s" % (hx("hh"), sexp_str(["log", hx("hh"), ["const", n(5)]])),
+                   ctx_line("c", [(nm, "f", ["log", hx("shadow"), [kind_]]), ("v", "v", n(9))]), exec_line("c", prog), "GETVAR\tc\t" + hx("w"), "GETVAR\tc\t" + hx("x")]
+            smeta.append((len(sreqs), kind_, nm, prog))
+            sreqs += blk
+    si, sm = both(sreqs, timeout=600)
+    c.add_stream(Stream("failing context function shadowing a global of the same name", sreqs, si, sm))
+    for off, kind_, nm, prog in smeta:
+        line = si[off + 3]
+        oc = outcome_of(line)
+        logf = line.split("\t")[3] if len(line.split("\t")) > 3 else ""
+        last = sexp_parse(logf)[-1][0] if logf not in ("", "()") and sexp_parse(logf) else None
+        if not (oc[0] == ("ERR" if kind_ == "err" else "PANIC") and last == hx("shadow") and si[off + 4] == "OK (n 0 1 0)" and "(n " not in si[off + 5]):
+            c.violation("implementation-vs-property", "a failing/panicking context function shadowing global `%s` was not contained (%s)" % (nm, kind_),
+                        {"requests": sreqs[off: off + 6], "implementation": si[off: off + 6], "input_text": prog})
     return c.finish(trusted=TB_COMMON + ["std::sync::Mutex poisoning semantics as documented"],
                     rule="programs invoking seven handler kinds (context function by call / by bare name, global function, prefix, infix, postfix operator, assignment-type infix operator); Err and panic injected into each kind in turn; follow-ups: get_variable and a second exec on the same context, exec on another context; oracle: outcome Err/unwind, call log ends at the faulty handler, follow-ups succeed with the values of the stopped evaluation")
 
@@ -585,21 +629,24 @@ def check_C14(c):
                 binds.append(("h", "f", script))
                 prog = "h() + 1" if kind_ == "ctxcall" else "h + 1"
                 progs = [prog, "x = " + ("h()" if kind_ == "ctxcall" else "h"), "[%s, %s]" % (("h()", "h()") if kind_ == "ctxcall" else ("h", "h"))]
+                if kind_ == "ctxcall":
+                    progs.append("h(h(), h(1))")
             elif kind_ == "global":
                 pre.append("REG\tfn\t%s\t0\tcalc\tleft\t%s" % (hx("hh"), sexp_str(script)))
-                progs = ["hh() + 1", "x = hh(a)", "[hh(), hh()]"]
+                progs = ["hh() + 1", "x = hh(a)", "[hh(), hh()]", "hh(hh(), max(hh(), 1))"]
             elif kind_ == "prefix":
                 pre.append("REG\tprefix\t%s\t0\tcalc\tleft\t%s" % (hx("hp"), sexp_str(script)))
-                progs = ["hp 1", "x = hp a", "[hp 1, hp 2]"]
+                progs = ["hp 1", "x = hp a", "[hp 1, hp 2]", "hp hp 1", "- hp + hp a"]
             elif kind_ == "infix":
                 pre.append("REG\tinfix\t%s\t105\tcalc\tleft\t%s" % (hx("hi"), sexp_str(script)))
-                progs = ["1 hi 2", "x = a hi 2", "1 hi 2 hi 3"]
+                progs = ["1 hi 2", "x = a hi 2", "1 hi 2 hi 3", "1 + 2 hi 3 * 4 hi (5 hi 6)"]
             elif kind_ == "setter":
                 pre.append("REG\tinfix\t%s\t25\tsetter\tright\t%s" % (hx("hs"), sexp_str(script)))
                 progs = ["a hs 2", "x = 1; x hs a; x", "a hs 2; a hs 3; a"]
             else:
                 pre.append("REG\tpostfix\t%s\t0\tcalc\tleft\t%s" % (hx("hq"), sexp_str(script)))
-                progs = ["1 hq", "x = a hq", "[1 hq , 2 hq]"]
+                # chains: a handler applied to the result of another operator of its own kind (built-in or itself)
+                progs = ["1 hq", "x = a hq", "[1 hq , 2 hq]", "1 hq hq", "a ++ hq", "a hq -- hq ++"]
             for p in progs:
                 block = pre + [ctx_line("c", binds), exec_line("c", p, w=True)]
                 meta.append((len(reqs), len(block), kind_, aname, p))
@@ -623,7 +670,7 @@ def check_C14(c):
     c.streams.append({"stream": "re-entrancy matrix (one process per cell, 3 s watchdog)", "requests": sum(len(b_) for b_ in reqs), "disagreements": 0,
                       "unmodelled_skipped": 0, "informational_error_kind_drift": 0, "cells": n_cells})
     c.sample({"cell": meta[0][2:], "requests": reqs[0]})
-    return c.finish(trusted=TB_COMMON, rule="6 handler kinds × 9 re-entrant actions (parse, execute, register_function/prefix/infix/postfix, locking the evaluating context's handle, nested re-entry depth 2 and 3) × 3 program shapes, each on a worker thread under a watchdog in its own process; oracle: completes with the normal result")
+    return c.finish(trusted=TB_COMMON, rule="6 handler kinds × 9 re-entrant actions (parse, execute, register_function/prefix/infix/postfix, locking the evaluating context's handle, nested re-entry depth 2 and 3) × 3–6 program shapes (single use, assignment, repeated use, chains of the same kind), each on a worker thread under a watchdog in its own process; oracle: completes with the normal result")
 
 
 # =====================================================================================
@@ -919,6 +966,44 @@ def check_C17(c):
         got = f[4]
         if (iv is None and got != "err") or (iv is not None and got != "ok:%d" % iv):
             c.violation("implementation-vs-property", "integer() is not `the integer value within i64, whatever the scale`", {"request": r, "expected": iv, "implementation": a})
+    # float(): a number that *is* an f64 converts to exactly that f64; any other number to one of its two neighbouring
+    # f64 values; every non-number is rejected (runtime oracle: Lean's Float is opaque)
+    from fractions import Fraction
+    import math
+    fvals = [n(0), n(1), n(5, 1), n(1, 1), n(25, 2, True), n(190368778409888275, 2), n(10 ** 28, 28), n(2 ** 53 + 1), n(2 ** 96 - 1), n(1, 28), n(3333333333333333333333333333, 28)]
+    for _ in range(300 if c.quick() else 20000):
+        k = 1 + rng.below(24)
+        m = rng.below(2 ** 53)
+        while m * 5 ** k >= 2 ** 96:
+            m //= 7
+        fvals.append(n(m * 5 ** k, k, rng.chance(1, 2)))              # a dyadic rational: exactly an f64
+        sc = rng.below(29)
+        fvals.append(n(rng.below(10 ** (1 + rng.below(28))), sc, rng.chance(1, 2)))
+    fvals += [s("1.5"), b(True), NONE, l(n(1))]
+    frq = ["FLT\t" + sexp_str(v) for v in fvals]
+    fim = run_impl(frq)
+    n_exact = 0
+    for v, r, a in zip(fvals, frq, fim):
+        c.count(r)
+        f = a.split("\t")
+        if v[0] != "n":
+            if f[1:2] != ["err"]:
+                c.violation("implementation-vs-property", "float() accepts a value that is not a number", {"request": r, "implementation": a})
+            continue
+        if len(f) < 2 or not f[1].startswith("ok:"):
+            c.violation("implementation-vs-property", "float() rejects a number", {"request": r, "implementation": a}); continue
+        got = struct.unpack(">d", bytes.fromhex(f[1][3:]))[0]
+        q = Fraction(S.num_val(v))
+        near = float(q)                                # correctly rounded
+        if Fraction(near) == q:
+            n_exact += 1
+            okf = got == near
+        else:
+            lo_, hi_ = (math.nextafter(near, -math.inf), near) if Fraction(near) > q else (near, math.nextafter(near, math.inf))
+            okf = got in (lo_, hi_)
+        if not okf:
+            c.violation("implementation-vs-property", "float() yields a different number than the one given", {"request": r, "expected": repr(near), "got": repr(got), "implementation": a})
+    c.extra["float_accessor_exactly_representable_inputs"] = n_exact
     return c.finish(trusted=TB_COMMON + ["floats: runtime oracle only (Lean's Float is opaque to the kernel; rust_decimal's binary→decimal conversion is not modelled)"],
                     rule="every integer type at min, max, 0, ±1, ±2^k±1 (all k), ±10^k, random; f32/f64 specials, powers of ten and random bit patterns (runtime oracle); accessor × variant matrix over the value pool; integer() on decimals at every scale around ±2^63")
 
@@ -971,7 +1056,8 @@ def check_C18(c):
     table = G.documented_table()
     kinds = ["unary", "binary", "postfix", "ternary", "function", "reference", "list", "map", "chain"]
     # the same names under several kinds: a registration for one (kind, name) must not reach another kind with that name
-    shared = ["++", "nm", "-"]
+    # … and names a registry might be tempted to treat specially (wildcards, defaults): they are ordinary names
+    shared = ["++", "nm", "-", "*", "_", "default"]
     named = {"unary": shared, "binary": shared, "postfix": shared, "function": shared + ["max"], "reference": shared + ["b"]}
     A, B = G.ref("a"), G.ref("b")
     fixed = [G.stmt([G.binop("+", G.un("-", A), G.post(B, "++")), G.tern(A, G.call("f", [G.lst([G.num(1)])]), G.mp([(G.num(1), B)]))]),
@@ -1128,6 +1214,46 @@ def check_C13(c):
             c.violation("implementation-vs-property", "registration not atomic w.r.t. an evaluation", {"implementation": out})
     elif out not in ("ok:List([Number(1),Number(0),Number(1)])", "ok:List([Number(2),Number(0),Number(2)])"):
         c.violation("implementation-vs-property", "multiread schedule: unexpected result", {"implementation": out})
+    # (e) registering an operator that is already registered, concurrently with evaluations that use it: forced (the
+    # replaced handler's destructor wakes the evaluating thread) and unforced (tight loops). The evaluation sees the old
+    # or the new registration, never neither.
+    n_rereg = 0
+    for kind_, old, new in (("infix", 103, 203), ("prefix", 103, 203), ("postfix", 103, 203)):
+        for _ in range(2 if c.quick() else 20):
+            rc, out = sched(["rereg-forced", kind_])
+            n_rereg += 1
+            c.count("rereg-forced " + kind_ + str(n_rereg))
+            f = dict(x.split("=", 1) for x in out.split(" ") if "=" in x)
+            if rc != 0 or f.get("during") not in ("ok:Number(%d)" % old, "ok:Number(%d)" % new) or f.get("after") != "ok:Number(%d)" % new:
+                c.violation("implementation-vs-property", "an evaluation concurrent with a re-registration saw neither the old nor the new %s operator" % kind_,
+                            {"schedule": "harness: sched rereg-forced %s — register op; thread A evaluates while thread B registers it again (A is woken by the replaced handler's destructor)" % kind_,
+                             "implementation": out, "expected": "during ∈ {%d, %d}, after = %d" % (old, new, new)})
+    for i in range(3 if c.quick() else 100):
+        rc, out = sched(["rereg-race", 20000 if c.quick() else 100000], timeout=300)
+        n_rereg += 1
+        c.count("rereg-race %d" % i)
+        if rc != 0 or out != "ok ok ok ok":
+            c.violation("implementation-vs-property", "an evaluation concurrent with re-registrations of built-in operators (by equal handlers) did not give the built-in result",
+                        {"schedule": "harness: sched rereg-race — one thread re-registers + (infix), - (prefix), ++ (postfix) in a loop; four threads evaluate `1 + 2`, `- 3`, `4 ++`", "implementation": out})
+    c.streams.append({"stream": "re-registration concurrent with evaluation (forced and unforced)", "requests": n_rereg, "disagreements": 0, "unmodelled_skipped": 0, "informational_error_kind_drift": 0})
+    # (f) a second, long-lived thread tokenizes/evaluates a text, the first thread then registers one of its words as an
+    # operator, and the second thread evaluates the same text again — after the registration has returned, so every
+    # sequential order has the registration first: per-thread memory of earlier answers would show
+    hreqs, hmeta = [], []
+    for op, kind_, text, script in [("plusw", "infix", "5 plusw 3", ["bi", hx("+")]), ("negw", "prefix", "negw 4", ["const", n(1)]), ("incw", "postfix", "4 incw", ["const", n(2)]),
+                                    ("<+>", "infix", "5 <+> 3", ["bi", hx("+")]), ("fnw", "fn", "fnw(1)", ["const", n(6)])]:
+        blk = ["ONW\tTOK\t" + hx(text), "ONW\tCTX\tw\t()", "ONW\t" + exec_line("w", text), "TOK\t" + hx(text),
+               "REG\t%s\t%s\t110\tcalc\tleft\t%s" % (kind_, hx(op), sexp_str(script)),
+               "ONW\tTOK\t" + hx(text), "ONW\tCTX\tw\t()", "ONW\t" + exec_line("w", text), "CTX\tm\t()", exec_line("m", text)]
+        hmeta.append((len(hreqs), op, text))
+        hreqs += blk
+    hi_, hm_ = both(hreqs, timeout=300)
+    c.add_stream(Stream("second thread: use, registration on the first thread, use again", hreqs, hi_, hm_))
+    for off, op, text in hmeta:
+        # after the registration both threads must agree
+        if hi_[off + 7].split("\t")[1:2] != hi_[off + 9].split("\t")[1:2]:
+            c.violation("implementation-vs-property", "a thread that used a text before an operator/function in it was registered still sees the old meaning",
+                        {"requests": hreqs[off:off + 10], "implementation": hi_[off:off + 10], "input_text": text})
     c.streams.append({"stream": "forced init-boundary schedules", "requests": n_forced, "disagreements": 0, "unmodelled_skipped": 0, "informational_error_kind_drift": 0})
     c.streams.append({"stream": "unforced first-call races (fresh process each)", "requests": n_race, "disagreements": 0, "unmodelled_skipped": 0, "informational_error_kind_drift": 0})
     c.sample({"forced": "initprobe 2 parse exec", "race": "race 5 parse exec regfn reginfix execops"})
@@ -1172,20 +1298,23 @@ def check_C16(c):
                 c.violation("implementation-vs-property", "a call's result depends on other programs / other contexts evaluated before it",
                             {"embedded_history": reqs[: 4 + j], "embedded_result": impl[3 + j], "alone": own, "alone_result": alone[-1]})
     # many failing parses / evaluations first, then every pool program: results must equal the program alone
-    for bad in ["(1 +", "[[[[[[[[[[[[[[[[[[[[[[[[[[[[[[[[[[[[[[[[", "1/0", "- - - - - - - - - -", "{1:", "f(1,", "a = ", "'abc"]:
-        pre = ["CTX\tc0\t()"] + [exec_line("c0", bad) for _ in range(150 if c.quick() else 400)]
+    # (the last four: evaluations ended by a *panicking* registered function / operator — the registries must come through)
+    panic_regs = ["REG\tfn\t%s\t0\tcalc\tleft\t(panic)" % hx("boomf"), "REG\tprefix\t%s\t0\tcalc\tleft\t(panic)" % hx("boomp"),
+                  "REG\tinfix\t%s\t105\tcalc\tleft\t(panic)" % hx("boomi"), "REG\tpostfix\t%s\t0\tcalc\tleft\t(panic)" % hx("boomq")]
+    for bad in ["(1 +", "[[[[[[[[[[[[[[[[[[[[[[[[[[[[[[[[[[[[[[[[", "1/0", "- - - - - - - - - -", "{1:", "f(1,", "a = ", "'abc", "boomf(1)", "boomp 1", "1 boomi 2", "1 boomq"]:
+        pre = (panic_regs if "boom" in bad else []) + ["CTX\tc0\t()"] + [exec_line("c0", bad) for _ in range(150 if c.quick() else 400)]
         tail = []
         for p in progs_pool:
             tail.append("CTX\tc\t()")
             tail.append(exec_line("c", p))
         im = run_impl(pre + tail)
-        alone_r = run_impl(tail)
+        alone_r = run_impl((panic_regs if "boom" in bad else []) + tail)[(len(panic_regs) if "boom" in bad else 0):]
         total += len(pre) + 2 * len(tail)
         for r, a, bb in zip(tail, im[len(pre):], alone_r):
             c.count(r + bad)
             if canon(a) != canon(bb):
                 c.violation("implementation-vs-property", "a call's result depends on failed parses/evaluations made before it",
-                            {"history": "%d × `%s`, then the request" % (len(pre) - 1, bad), "request": r, "input_text": unhx(r.split("\t")[2]) if r.startswith("EXEC") else "",
+                            {"history": "%d × `%s`, then the request" % (150 if c.quick() else 400, bad), "request": r, "input_text": unhx(r.split("\t")[2]) if r.startswith("EXEC") else "",
                              "after_history": a, "alone": bb})
     # registrations between evaluations: an evaluation depends on the registrations in force, not on what was parsed,
     # rendered or evaluated under earlier registrations (a memo keyed by name would show here)
@@ -1212,6 +1341,30 @@ def check_C16(c):
             if canon(a) != canon(bb):
                 c.violation("implementation-vs-property", "a result depends on what was parsed or evaluated under an earlier registration",
                             {"history": hist, "request": r, "after_history": a, "fresh_process_with_the_final_registrations": bb})
+    # registrations that replace *built-in* names stay in force whatever is parsed, rendered or evaluated afterwards, on
+    # this or another thread ("the registrations made so far", not "the built-in tables plus new names")
+    breg = ["REG\tfn\t%s\t0\tcalc\tleft\t%s" % (hx("sum"), sexp_str(["const", n(42)])),
+            "REG\tinfix\t%s\t110\tcalc\tleft\t%s" % (hx("+"), sexp_str(["bi", hx("-")])),
+            "REG\tprefix\t%s\t0\tcalc\tleft\t%s" % (hx("!"), sexp_str(["const", n(8)])),
+            "REG\tpostfix\t%s\t0\tcalc\tleft\t%s" % (hx("++"), sexp_str(["const", n(9)]))]
+    bprogs = [("sum(1, 2)", "(n 0 42 0)"), ("5 + 3", "(n 0 2 0)"), ("! true", "(n 0 8 0)"), ("1 ++", "(n 0 9 0)"), ("[sum(), 1 + 1, ! 0, 0 ++]", "(l (n 0 42 0) (n 0 0 0) (n 0 8 0) (n 0 9 0))")]
+    bh = list(breg)
+    bidx = []
+    for between in (["PARSE\t" + hx("x")], ["ONW\tPARSE\t" + hx("max(1, 2) - 1")], ["EXPR\t" + hx("a * b")], ["CTX\tz\t()", exec_line("z", "min(1, 2)")], ["REG\tfn\t%s\t0\tcalc\tleft\t(const (n 0 1 0))" % hx("other")]):
+        for p, exp in bprogs:
+            bh += ["CTX\tc\t()", exec_line("c", p)]
+            bidx.append((len(bh) - 1, p, exp))
+            bh += ["ONW\tCTX\tw\t()", "ONW\t" + exec_line("w", p)]
+            bidx.append((len(bh) - 1, p, exp))
+        bh += between
+    bi_, bm_ = both(bh, timeout=300)
+    c.add_stream(Stream("built-in names re-registered, then unrelated parses/evaluations/registrations between uses", bh, bi_, bm_))
+    total += len(bh)
+    for i, p, exp in bidx:
+        oc = outcome_of(bi_[i])
+        if not (oc[0] == "OK" and sexp_str(oc[1]) == exp):
+            c.violation("implementation-vs-property", "a result depends on unrelated calls made since a registration (the registration of a built-in name did not stay in force)",
+                        {"requests": bh[:i + 1], "input_text": p, "expected": exp, "implementation": bi_[i]})
     # same AST evaluated repeatedly with equal contexts
     rep = []
     for p in progs_pool:
